@@ -213,8 +213,8 @@ pub proof fn lemma_establish_public_values_pinned(p: EstablishProof, pk: PublicK
 }
 
 /// C06/C02: with the challenge unchanged, a pay proof accepted for one (nonce, amount) is accepted for no other.
-pub proof fn lemma_pay_public_values_pinned(p: PayProof, cfg: merchant::Config, nonce: Scalar, amt: Scalar, nonce2: Scalar, amt2: Scalar, c: Scalar)
-    requires pay_accept(p, cfg, nonce, amt, c), pay_accept(p, cfg, nonce2, amt2, c), c != s_zero(),
+pub proof fn lemma_pay_public_values_pinned(p: PayProof, pk: PublicKey<5>, revp: PedersenParameters<G1Projective, 1>, rp: RangeConstraintParameters, nonce: Scalar, amt: Scalar, nonce2: Scalar, amt2: Scalar, c: Scalar)
+    requires pay_accept(p, pk, revp, rp, nonce, amt, c), pay_accept(p, pk, revp, rp, nonce2, amt2, c), c != s_zero(),
     ensures nonce == nonce2 && amt == amt2,   // @ob pay-public-values-pinned-by-the-equations [C06 C02]
 {
     lemma_resp_injective(c, nonce, nonce2, p.old_nonce_commitment_scalar);
